@@ -1,5 +1,6 @@
 import Mathlib.Algebra.BigOperators.Group.Finset.Basic
 import Mathlib.Algebra.Order.BigOperators.Group.Finset
+import Mathlib.Algebra.Order.BigOperators.Ring.Finset
 import Mathlib.Data.Nat.Factorial.Basic
 import Mathlib.Data.Nat.Cast.Order.Field
 import BioscrapeModel.Proofs.Propensity
@@ -136,6 +137,34 @@ theorem massAction_stoch (k : Nat) (R : List Nat) (x p : Nat → α) (t : α) (h
         max_eq_left (hx b)]
   · simp only [createMassAction, Propensity.stoch, massActionStoch_eq, massActionInitLoop]
     rw [foldl_bump_prodFF x _ [] [] (by intro s; simp [cnt]), prodFF_nil, one_mul]
+
+/-! ### Sign and support of the stochastic mass-action propensity -/
+
+/-- the clipped falling factorial is never negative, at integer or non-integer amounts. -/
+theorem ff_nonneg (y : α) (m : Nat) : 0 ≤ ff y m := by
+  induction m with
+  | zero => rw [ff_zero]; exact zero_le_one
+  | succ m ih => rw [ff_succ]; exact mul_nonneg ih (le_max_right _ _)
+
+/-- **a stochastic mass-action propensity is never negative** when its rate constant is not, for reactant lists of any
+length and multiplicity and any non-negative state (the hypothesis under which the SSA loop's choice intervals are
+well formed, `C05.choice_measure`). -/
+theorem massAction_stoch_nonneg (k : Nat) (R : List Nat) (x p : Nat → α) (t : α) (hx : ∀ s, 0 ≤ x s)
+    (hk : 0 ≤ p k) : 0 ≤ (createMassAction (α := α) k R).stoch x p t := by
+  rw [massAction_stoch k R x p t hx]
+  unfold stochSpec
+  exact mul_nonneg hk (Finset.prod_nonneg (fun s _ => ff_nonneg _ _))
+
+/-- **a reaction short of a reactant cannot fire**: if some reactant species is present in fewer whole copies than the
+reaction consumes, the propensity is exactly zero (so the SSA never selects it: `zero_weight_not_chosen`). -/
+theorem massAction_stoch_zero_of_short (k : Nat) (R : List Nat) (x p : Nat → α) (t : α) (hx : ∀ s, 0 ≤ x s)
+    (s : Nat) (hs : s ∈ R) (n : Nat) (hn : x s = (n : α)) (hshort : n < R.count s) :
+    (createMassAction (α := α) k R).stoch x p t = 0 := by
+  rw [massAction_stoch k R x p t hx]
+  unfold stochSpec
+  have : ∏ s ∈ R.toFinset, ff (x s) (R.count s) = 0 :=
+    Finset.prod_eq_zero (List.mem_toFinset.mpr hs) (by rw [hn]; exact ff_eq_zero_of_lt n _ hshort)
+  rw [this, mul_zero]
 
 variable [LawfulTransc α]
 
